@@ -10,9 +10,9 @@ type vC15Gen struct {
 
 func (g *vC15Gen) elem(d int) Sexp {
 	e := g.env
-	n := 10
+	n := 12
 	if d > 0 {
-		n = 12
+		n = 14
 	}
 	switch vChoice("elem", n) {
 	case 5: // literal atoms of every other kind stay as written
@@ -25,9 +25,13 @@ func (g *vC15Gen) elem(d int) Sexp {
 		return &SexpBool{Val: true}
 	case 9:
 		return vL(vS(e, "quote"), vS(e, "q"))
-	case 10:
-		return g.seq(d-1, false)
+	case 10: // a template inside the template: its unquotes are substituted too
+		return vL(vS(e, "syntaxQuote"), vL(vS(e, "b"), vL(vS(e, "unquote"), vS(e, "v"))))
 	case 11:
+		return vL(vS(e, "syntaxQuote"), vA(e, vL(vS(e, "unquote-splicing"), vS(e, "l")), vSmallInt("lit")))
+	case 12:
+		return g.seq(d-1, false)
+	case 13:
 		return g.seq(d-1, true)
 	case 0:
 		return vSmallInt("lit")
@@ -170,6 +174,7 @@ var vC15Macros = []struct{ def, call, byHand, prelude string }{
 	{`(defmac m [c] ^(cond ~c (break) (t 9002)))`, `(m (> (+ i y) 9001))`, `(cond (> (+ i y) 9001) (break) (t 9002))`, `(def i 50) (def y 60)`},
 	{`(defmac m [c] ^(cond ~c (continue) (t (+ i y))))`, `(m (== (+ i y) 9001))`, `(cond (== (+ i y) 9001) (continue) (t (+ i y)))`, `(def i 50) (def y 60)`},
 	{`(defmac m [& body] ^(let [w 1] ~@body))`, `(m (cond (> i 9001) (break) (t i)))`, `(let [w 1] (cond (> i 9001) (break) (t i)))`, `(def i 50) (def y 60)`},
+	{`(defmac defsucc [name n] ^(defmac ~name [] ^(+ ~n 1))) (defsucc m 9001)`, `(m)`, `(+ 9001 1)`, ``},
 	{`(defmac m [n acc] ^(g ~n ~acc))`, `(m (- n 1) (+ acc (t n)))`, `(g (- n 1) (+ acc (t n)))`, `(defn g [n acc] acc) (def n 1) (def acc 5)`},
 }
 
